@@ -78,3 +78,78 @@ package atree
 //@   requires m.elements != nil
 //@   ensures r == esref(m.elements)
 //@   pure
+
+//@ # ---------------------------------------------------------------- flag.go: the two head bytes (C07)
+//@ # byte 0: version in the high nibble, bit 1 = has next slab id, bit 0 = has inlined slabs
+//@ # byte 1: bit 7 = root, bit 6 = holds references, bit 5 = any size; low five bits = slab kind
+
+//@ func newArraySlabHead(version, t) (h, err)  serves C07
+//@   ensures version > 15 ==> err != nil
+//@   ensures err == nil ==> h != nil && fresh(h) && version <= 15 && h[0] == version * 16 && h[1] == ite(t == slabArrayData, 0, 1) && (t == slabArrayData || t == slabArrayMeta)
+//@   ensures err != nil ==> h == nil
+//@   modifies alloc
+
+//@ func newMapSlabHead(version, t) (h, err)  serves C07
+//@   ensures version > 15 ==> err != nil
+//@   ensures err == nil ==> h != nil && fresh(h) && version <= 15 && h[0] == version * 16 &&
+//@        h[1] == ite(t == slabMapData, 8, ite(t == slabMapMeta, 9, 11)) && (t == slabMapData || t == slabMapMeta || t == slabMapCollisionGroup)
+//@   ensures err != nil ==> h == nil
+//@   modifies alloc
+
+//@ func newStorableSlabHead(version) (h, err)  serves C07
+//@   ensures version > 15 ==> err != nil
+//@   ensures err == nil ==> h != nil && fresh(h) && h[0] == version * 16 && h[1] == 31
+//@   modifies alloc
+
+//@ func (h *head) version() (v)  serves C07
+//@   ensures v == h[0] / 16
+//@   pure
+
+//@ func (h *head) isRoot() (r)  serves C07
+//@   ensures r == bit(h[1], 7)
+//@   pure
+//@ func (h *head) setRoot()  serves C07
+//@   ensures bit(h[1], 7) && h[1] % 128 == old(h[1]) % 128 && h[0] == old(h[0])
+//@   modifies *h
+
+//@ func (h *head) hasPointers() (r)  serves C07
+//@   ensures r == bit(h[1], 6)
+//@   pure
+//@ func (h *head) setHasPointers()  serves C07
+//@   ensures bit(h[1], 6) && h[1] % 64 == old(h[1]) % 64 && h[1] / 128 == old(h[1]) / 128 && h[0] == old(h[0])
+//@   modifies *h
+
+//@ func (h *head) hasSizeLimit() (r)  serves C07
+//@   ensures r == !bit(h[1], 5)
+//@   pure
+//@ func (h *head) setNoSizeLimit()  serves C07
+//@   ensures bit(h[1], 5) && h[1] % 32 == old(h[1]) % 32 && h[1] / 64 == old(h[1]) / 64 && h[0] == old(h[0])
+//@   modifies *h
+
+//@ func (h *head) hasInlinedSlabs() (r)  serves C07
+//@   ensures r == bit(h[0], 0)
+//@   pure
+//@ func (h *head) setHasInlinedSlabs()  serves C07
+//@   ensures bit(h[0], 0) && h[0] / 2 == old(h[0]) / 2 && h[1] == old(h[1])
+//@   modifies *h
+
+//@ func (h *head) hasNextSlabID() (r)  serves C07
+//@   ensures h[0] / 16 != 0 ==> r == bit(h[0], 1)
+//@   ensures h[0] / 16 == 0 ==> r == !bit(h[1], 7)
+//@   pure
+//@ func (h *head) setHasNextSlabID()  serves C07
+//@   ensures bit(h[0], 1) && h[0] % 2 == old(h[0]) % 2 && h[0] / 4 == old(h[0]) / 4 && h[1] == old(h[1])
+//@   modifies *h
+
+//@ # slab kind from the low five bits of byte 1: bits 4..3 select array (00) / map (01) / storable (11), bits 2..0 the variant
+//@ func (h head) getSlabType() (t)  serves C07
+//@   ensures t == ite((h[1] / 8) % 4 == 0, slabArray, ite((h[1] / 8) % 4 == 1, slabMap, ite((h[1] / 8) % 4 == 3, slabStorable, slabTypeUndefined)))
+//@   pure
+//@ func (h head) getSlabArrayType() (t)  serves C07
+//@   ensures (h[1] / 8) % 4 != 0 ==> t == slabArrayUndefined
+//@   ensures (h[1] / 8) % 4 == 0 ==> t == ite(h[1] % 8 == 0, slabArrayData, ite(h[1] % 8 == 1, slabArrayMeta, ite(h[1] % 8 == 2, slabLargeImmutableArray, slabArrayUndefined)))
+//@   pure
+//@ func (h head) getSlabMapType() (t)  serves C07
+//@   ensures (h[1] / 8) % 4 != 1 ==> t == slabMapUndefined
+//@   ensures (h[1] / 8) % 4 == 1 ==> t == ite(h[1] % 8 == 0, slabMapData, ite(h[1] % 8 == 1, slabMapMeta, ite(h[1] % 8 == 2, slabMapLargeEntry, ite(h[1] % 8 == 3, slabMapCollisionGroup, slabMapUndefined))))
+//@   pure
